@@ -975,6 +975,14 @@ impl Explorer {
             if pool.slots[t].as_ref().unwrap() != pool.slots[src].as_ref().unwrap() {
                 Self::viol(out, 8, "clone-o1", "copy does not compare equal to the original".into());
             }
+            if s.kind == Kind::Static {
+                let extra: Vec<Viol> = out
+                    .iter()
+                    .filter(|v| v.prop == 8)
+                    .map(|v| Viol { prop: 10, monitor: v.monitor, msg: format!("(clone of a static-stored handle) {}", v.msg) })
+                    .collect();
+                out.extend(extra);
+            }
             let sc = share_class(snaps, src);
             let sig = mix(tag_hash(op.tag()), mix(s.kind as u64, mix(sc as u64, mix(len_class(s.len), dst_last as u64))));
             self.cov.hit(8, sig, || format!("{} src {:?}/{:?} len {}", op.tag(), s.kind, sc, s.len));
@@ -1040,6 +1048,7 @@ impl Explorer {
                 self.cov.mon("with-capacity-post", true);
                 if a.cap < *n {
                     Self::viol(out, 11, "with-capacity-post", format!("with_capacity({n}) ok but capacity is {}", a.cap));
+                    Self::viol(out, 6, "with-capacity-post", format!("with_capacity({n}) reported success without its postcondition: capacity is {}", a.cap));
                 }
                 self.cov.hit(11, mix(1150, mix((*n <= INLINE_CAP) as u64, len_class(*n))), || format!("with_capacity({n}) -> cap {}", a.cap));
                 if (*n as u64) > (1u64 << 40) {
@@ -1142,6 +1151,7 @@ impl Explorer {
             let fine = need.map(|x| a.cap >= x).unwrap_or(false);
             if !fine {
                 Self::viol(out, 11, "reserve-post", format!("reserve({n}) ok but capacity {} < len {} + {n}", a.cap, l_before));
+                Self::viol(out, 6, "reserve-post", format!("reserve({n}) reported success without its postcondition: capacity {} < len {} + {n}", a.cap, l_before));
             }
             if a.kind == Kind::Static || (a.kind == Kind::Heap && a.rc != Some(1)) {
                 Self::viol(out, 11, "reserve-post", format!("after reserve the handle does not own its storage exclusively ({:?}, rc {:?})", a.kind, a.rc));
